@@ -181,7 +181,7 @@ class Init:
     path: str                 # pkg/__init__.py
     dotted: str               # pkg
     lines: list[str] = field(default_factory=list)       # import lines
-    reexports: list = field(default_factory=list)        # [(kind 'name'|'alias'|'star'|'module', module dotted, name, alias)]
+    reexports: list = field(default_factory=list)        # [(kind 'name'|'alias'|'star'|'module'|'stay' (public through the re-export, declared where it is), module dotted, name, alias)]
     doc: str = ""
 
 
@@ -866,6 +866,34 @@ def gen_package(rng: random.Random, idx: int, *, style="plaintext", nmods=3, ree
                 else:
                     init.lines.append(f"from .{modname} import {f.name}")
                     init.reexports.append(("name", m.dotted, f.name, None))
+    # a simple class re-exported by two packages of different depth (the deeper one has the shorter path string) and
+    # referenced from another module
+    if reexports and subpackage and rng.random() < 0.5 and len(mods) >= 2:
+        long_name = f"public_interface_layer_{names.num()}{tag}"
+        deep_dir, deep_dotted = f"{dirs[1][0]}/d{names.num()}", f"{dirs[1][1]}.d{names.n:03d}"
+        deep_dir = f"{dirs[1][0]}/d{names.n:03d}"
+        shared = Cls(names.fresh("cls"), methods=[Func(names.fresh("func"), [], ret=Ann("int"))])
+        hname = "_" + names.fresh("mod").lstrip("_")
+        deep_home = rng.random() < 0.7     # a home below the re-exporting package: the class moves there; otherwise it stays
+        hd, hdd = dirs[1] if deep_home else dirs[0]
+        home = Module(f"{hd}/{hname}.py", f"{hdd}.{hname}")
+        mods.append(home)
+        user = next((m for m in mods if m is not home and not m.path.split("/")[-1].startswith("_")), None)
+        if home is not None and user is not None:
+            home.classes.append(shared)
+            li = Init(f"{root}/{long_name}/__init__.py", f"{root}.{long_name}", lines=[f"from {home.dotted} import {shared.name}"],
+                      reexports=[("name" if deep_home else "stay", home.dotted, shared.name, None)])
+            di = Init(f"{deep_dir}/__init__.py", deep_dotted, lines=[f"from {home.dotted} import {shared.name}"],
+                      reexports=[])      # the shallower package is the one that declares it
+            inits += [li, di]
+            for d_, dd_ in ((f"{root}/{long_name}", f"{root}.{long_name}"), (deep_dir, deep_dotted)):
+                filler = Module(f"{d_}/{names.fresh('mod').lstrip('_')}.py", "")
+                filler.dotted = dd_ + "." + filler.path.rsplit("/", 1)[1][:-3]
+                filler.funcs.append(Func(names.fresh("func"), [], ret=Ann("int")))
+                mods.append(filler)
+            user.imports.append(f"from {home.dotted} import {shared.name}")
+            user.funcs.append(Func(names.fresh("func"), [Param(names.fresh("param"), "pos", Ann("ref", name=shared.name, module=home.dotted))],
+                                   ret=Ann("int")))
     # a sub-package module with the same (private) file name as a re-exported module of the parent package
     if reuse and len(dirs) > 1:
         for init in inits:
@@ -885,6 +913,8 @@ def gen_package(rng: random.Random, idx: int, *, style="plaintext", nmods=3, ree
     # same package; the unchanged tool tells them apart by the qualified name
     for init in inits:
         for kind, moddotted, fname, alias in list(init.reexports):
+            if kind == "stay":
+                continue
             parts = fname.rsplit("_", 1)
             if len(parts) == 2 and parts[1] and rng.random() < 0.8:
                 others = [m for m in mods if m.dotted != moddotted and m.dotted.rsplit(".", 1)[0] == init.dotted]
